@@ -79,3 +79,12 @@ Theorem C01_mlstring_stage_is_FWrap :
      lines_complete (t_content (fst p)) /\ (exists r : list N, t_content (fst p) = 39 :: r)) l ->
   PipelineProofs.step Pipeline.FWrap l (map (ml_stage_tok rs) l).
 Proof. exact ml_stage_is_FWrap_step. Qed.
+
+(* the case clause for compiler directives: whatever the directive rewriter changes is letter case within the name - the run of
+   name bytes right after the opener (r01_directive, the relation the unit r01 evaluates on every real token) *)
+From PasfmtVerif Require Import Model.Rewriters Proofs.R01DirectiveProofs.
+Theorem C01_directive_case_changes_only_in_its_name :
+  forall c c' : bytes, format_compiler_directive c = Some c' -> r01_directive c c' = true.
+Proof. exact format_compiler_directive_r01. Qed.
+
+
